@@ -46,6 +46,38 @@ K("O15.8b", ["C15"], "object", "c15_array_roundtrip", level="bounded", bound="ar
 
 
 # ---------------------------------------------------------------------------------------------
+# C06 operators
+# ---------------------------------------------------------------------------------------------
+for _h, _f in (("c06_add_int", "add"), ("c06_sub_int", "sub")):
+    K("O06.1." + _f, ["C06", "C05"], "object", _h, functions=["Object::" + _f, "Object::int", "Object::as_int"], needs_fmt_stub=True,
+      desc="forall a,b in range: Ok(int(a op b)) iff the exact (i128) result is in the 61-bit range, else Err; never wraps, never panics")
+for _f in ("mul", "div", "rem"):
+    K("O06.2k." + _f, ["C06", "C05"], "object", "c06_%s_int_total" % _f, functions=["Object::" + _f], needs_fmt_stub=True,
+      desc="forall a,b in range: no panic; answer is an in-range Int or Err(TypeError); zero divisor is an error (exactness: Verus O06.2)")
+for _f in ("lt", "lte", "gt", "gte", "eq", "neq"):
+    K("O06.3." + _f, ["C06"], "object", "c06_%s_int" % _f, functions=["Object::" + _f, "PartialOrd::partial_cmp", "PartialEq::eq"], needs_fmt_stub=True,
+      desc="forall a,b in range: comparison of int(a), int(b) equals the comparison of the integers a, b")
+for _f in ("add", "sub"):
+    K("O06.4a." + _f, ["C06"], "object", "c06_%s_float" % _f, functions=["Object::" + _f, "Object::float", "Float::from_f64"], needs_fmt_stub=True,
+      desc="forall f64 x,y (all bit patterns): result bits == IEEE/Rust `x op y` bits (NaN payload aside)")
+for _f in ("mul", "div", "rem"):
+    K("O06.4t." + _f, ["C06", "C05"], "object", "c06_%s_float_total" % _f, functions=["Object::" + _f], needs_fmt_stub=True,
+      desc="modular (as_f64_unchecked / Object::float replaced by their contracts, proved by O15.7): for all 2^64 x 2^64 payloads the Float arm answers Ok(Float), never an error or panic")
+K("O06.4p", ["C06"], "object", "c06_float_points", level="bounded", bound="4 concrete operand pairs", needs_fmt_stub=True,
+  functions=["Object::mul", "Object::div", "Object::rem"], desc="operand order / operator identity of float * / % at concrete points")
+for _f in ("lt", "lte", "gt", "gte", "eq", "neq"):
+    K("O06.4c." + _f, ["C06"], "object", "c06_%s_float" % _f, functions=["Object::" + _f, "PartialOrd::partial_cmp", "PartialEq::eq"], needs_fmt_stub=True,
+      desc="forall f64 x,y: comparison equals the f64 comparison incl. signed zeros, infinities, NaN")
+for _f in ("add", "sub", "mul", "div", "rem", "lt", "lte", "gt", "gte", "eq", "neq", "and", "or"):
+    K("O06.5a." + _f, ["C06", "C05"], "object", "c06_cross_" + _f, needs_fmt_stub=True, functions=["Object::" + _f],
+      desc="all 42 ordered pairs of distinct types, ALL payload words: Err(TypeError), no panic")
+    K("O06.5b." + _f, ["C06", "C05"], "object", "c06_same_" + _f, needs_fmt_stub=True, functions=["Object::" + _f, "PartialOrd::partial_cmp", "PartialEq::eq"],
+      desc="same type, unsupported operator -> TypeError; and/or truth table; bool order; ==/!= of null, bool, function, array decided by the words; no panic")
+for _h in ("less", "prefix", "equal"):
+    K("O06.6." + _h, ["C06"], "object", "c06_string_cmp_" + _h, level="bounded", bound="one concrete pair of texts", needs_fmt_stub=True,
+      functions=["PartialOrd::partial_cmp", "PartialEq::eq"], desc="six comparisons on two texts equal byte-lexicographic order")
+
+# ---------------------------------------------------------------------------------------------
 # per-property information for the evidence files
 # ---------------------------------------------------------------------------------------------
 NOT_APPLICABLE = {
@@ -54,6 +86,14 @@ NOT_APPLICABLE = {
 }
 
 PROPERTIES = {
+    "C06": {
+        "level": "proof",
+        "claim": "For ALL operand pairs: + - and the six comparisons on 61-bit ints are exact or an error (Kani, full domain); * / % are exact over mathematical integers (Verus on the macro-expanded real body) and panic-free (Kani); float + - * / and comparisons are bit-identical to IEEE (Kani, all bit patterns); every cross-type / unsupported combination is a TypeError, never a panic.",
+        "note": "Trusted: Kani/CBMC float model, Verus/Z3, extraction rules R1,R5,R6. Bounded: string order (3 concrete pairs). Float %: not decided (CBMC has no fmod model). The three syntactic forms are the operand-order obligations of C10.",
+        "design_ref": "DESIGN.md 3.2",
+        "undecided": ["float % (no fmod model in CBMC)", "string order beyond the concrete pairs"],
+        "assumptions": ["operands are results of the real constructors (Object::int within range, Object::float)"],
+    },
     "C15": {
         "level": "proof",
         "claim": "Every scalar constructor/accessor pair of the tagged word is proved lossless and collision-free for ALL inputs (61-bit ints, (u32,u16) descriptors, 2^64 float bit patterns, every word for tag/with_type) by loop-free full-domain Kani harnesses on the real object.rs; text and array payloads only by bounded stand-ins.",
@@ -82,3 +122,9 @@ def le(v, n=8):
 
 
 PROBES = {}
+# boundary lattice for harnesses whose symbolic inputs are two `any_int()` calls (8 little-endian bytes each)
+_MAXI, _MINI = (1 << 60) - 1, -(1 << 60)
+_PAIRS = [(-1, 1), (1, -1), (_MAXI, 1), (_MINI, -1), (_MINI, 1), (7, 0), (-7, 2), (_MAXI, _MAXI), (_MINI, _MINI), (1 << 31, 1 << 31), (10, 3)]
+for _h in ["c06_add_int", "c06_sub_int", "c06_mul_int_total", "c06_div_int_total", "c06_rem_int_total",
+           "c06_lt_int", "c06_lte_int", "c06_gt_int", "c06_gte_int", "c06_eq_int", "c06_neq_int"]:
+    PROBES[_h] = [_probe(_h, "%d" % i, [le(a), le(b)]) for i, (a, b) in enumerate(_PAIRS)]
